@@ -32,6 +32,7 @@ import (
 	consensusspec "github.com/attestantio/go-eth2-client/spec"
 	"github.com/attestantio/go-eth2-client/spec/phase0"
 	"github.com/attestantio/vouch/services/beaconblockproposer"
+	"github.com/attestantio/vouch/services/blockrelay"
 	"github.com/attestantio/vouch/services/metrics"
 	"github.com/attestantio/vouch/util"
 	"github.com/pkg/errors"
@@ -52,6 +53,15 @@ func (s *Service) submitValidatorRegistrationsRuntime(_ context.Context) (
 	//nolint:gosec // Secure random number generation not required.
 	offset := ((10 + rand.Int63n(80)) * epochDuration.Milliseconds()) / 100
 	return s.chainTime.StartOfEpoch(currentEpoch + 1).Add(time.Duration(offset) * time.Millisecond), nil
+}
+
+// currentExecutionConfig returns the execution configuration in force.
+// The configuration is replaced by the periodic fetch, so it must be read under its lock.
+func (s *Service) currentExecutionConfig() blockrelay.ExecutionConfigurator {
+	s.executionConfigMu.RLock()
+	defer s.executionConfigMu.RUnlock()
+
+	return s.executionConfig
 }
 
 // SubmitValidatorRegistrations submits validator registrations for the given accounts.
@@ -93,7 +103,7 @@ func (s *Service) submitValidatorRegistrations(ctx context.Context) {
 		s.log.Debug().Msg("No validating accounts; not submiting validator registrations")
 		return
 	}
-	if s.executionConfig == nil {
+	if s.currentExecutionConfig() == nil {
 		monitorValidatorRegistrations(false, time.Since(started))
 		s.log.Debug().Msg("No execution config; not submiting validator registrations")
 		return
@@ -112,7 +122,7 @@ func (s *Service) submitValidatorRegistrationsForAccounts(ctx context.Context,
 	ctx, span := otel.Tracer("attestantio.vouch.services.blockrelay.standard").Start(ctx, "submitValidatorRegistrationsForAccounts")
 	defer span.End()
 
-	if s.executionConfig == nil {
+	if s.currentExecutionConfig() == nil {
 		return errors.New("no execution configuration; cannot submit validator registrations at current")
 	}
 
@@ -169,7 +179,7 @@ func (s *Service) generateValidatorRegistrationsForAccount(ctx context.Context,
 	pubkey := util.ValidatorPubkey(account)
 	controlledValidators[pubkey] = struct{}{}
 
-	proposerConfig, err := s.executionConfig.ProposerConfig(ctx, account, pubkey, s.fallbackFeeRecipient, s.fallbackGasLimit)
+	proposerConfig, err := s.currentExecutionConfig().ProposerConfig(ctx, account, pubkey, s.fallbackFeeRecipient, s.fallbackGasLimit)
 	if err != nil {
 		return nil, errors.Wrap(err, "No proposer configuration; cannot submit validator registrations")
 	}
